@@ -173,6 +173,12 @@ def w_enum(acc, L, first):
         acc.run("deriv", o_deriv, deriv, True)
 
 
+def w_large(acc, n):
+    acc.run("deriv", o_deriv, bibgen.large_document(n, dup_every=3), True)
+    acc.run("deriv", o_deriv, bibgen.large_document(n, dup_every=0), True)
+    acc.classes["large-document"] += 1
+
+
 def w_random(acc, n, seed):
     s1 = bibgen.strategies(key_pool=["a", "b", "A"], string_keys=["a", "b", "s"], fkey_pool=["x", "y", "X", "title"], max_items=10)
     s2 = bibgen.strategies(key_pool=["k", "k", "k2"], string_keys=["s"], fkey_pool=None, max_items=10)
@@ -188,6 +194,7 @@ def run(chk):
     for k in range(0, L + 1):
         for first in (range(n) if k else [None]):
             tasks.append(("w_enum", (k, first)))
+    tasks += [("w_large", (n,)) for n in (130, 300, 1100)]
     n_rand = 16000 if quick else 300000
     shards = 16 if quick else 64
     for s in range(shards):
